@@ -1,0 +1,16 @@
+//go:build verif
+// +build verif
+
+package redis
+
+// HotKeyCounts latches the access counter of the fake backend connection for addr: the key
+// names and visit counts the hot-key collector's next round would read from it.
+func (e *VerifEnv) HotKeyCounts(addr string) map[string]uint64 {
+	e.mu.Lock()
+	c := e.fakes[addr]
+	e.mu.Unlock()
+	if c == nil || c.keyCounter == nil {
+		return nil
+	}
+	return c.keyCounter.Latch()
+}
